@@ -1373,7 +1373,9 @@ NiShape* NifFile::CloneShape(NiShape* srcShape, const std::string& destShapeName
 	if (destBoneCont)
 		destBoneCont->boneRefs.Clear();
 
-	if (rootNode && srcRootNode) {
+	// Within the same file the skeleton already exists; cloning / re-parenting nodes by name would only
+	// rearrange it (and, with node names that occur more than once, can make a node its own ancestor)
+	if (rootNode && srcRootNode && srcNif != this) {
 		std::function<void(NiNode*)> cloneNodes = [&](NiNode* srcNode) -> void {
 			std::string boneName = srcNode->name.get();
 
